@@ -16,7 +16,7 @@
       [validate_connections fixed m]  the issues of the Validator's interface and equivalence-structure checks;
       [link_model m], [has_unlinked m], [clean_model m]  Model::linkUnits, hasUnlinkedUnits, clean. *)
 From Coq Require Import String List Bool.
-From LC Require Import IfaceDefs IfaceSpec IfaceProofs IfaceOwnDefs IfaceOwnProofs.
+From LC Require Import IfaceDefs IfaceSpec IfaceProofs IfaceMinProofs IfaceOwnDefs IfaceOwnProofs.
 From LCGen Require Import IfaceTable.
 Import ListNotations.
 Local Open Scope string_scope.
@@ -131,6 +131,55 @@ Theorem C19_fix_idempotent : forall fixed m,
   fix_model fixed (fst (fix_model fixed m)) = (fst (fix_model fixed m), snd (fix_model fixed m)).
 Proof. exact IfaceProofs.fix_idempotent. Qed.
 Print Assumptions C19_fix_idempotent.
+
+(* ---- minimality (IfaceMinProofs.v): exactly the insufficient attributes are rewritten, to the least type *)
+
+(** For a variable all of whose equivalences are possible: the type the repaired code computes is sufficient and is
+    the LEAST sufficient attribute (any sufficient string is that type or public_and_private);
+    permitsInterfaceType decides sufficiency; the call leaves the occurrence alone iff its attribute was
+    sufficient, and otherwise writes exactly that least type (both variants of the loop). *)
+Theorem C19_fix_least : forall L o, has_eqs (o_v o) = true -> AllPossible L o ->
+  Sufficient (itype_string (determine true L o)) L o /\
+  (forall s, Sufficient s L o -> s = itype_string (determine true L o) \/ s = "public_and_private") /\
+  (forall s, Sufficient s L o <-> permits s (determine true L o) = true) /\
+  forall fixed,
+    (fix_occ fixed L o = o <-> Sufficient (v_iface (o_v o)) L o) /\
+    (~ Sufficient (v_iface (o_v o)) L o ->
+       v_iface (o_v (fix_occ fixed L o)) = itype_string (determine true L o) /\ fix_occ fixed L o <> o) /\
+    Sufficient (v_iface (o_v (fix_occ fixed L o))) L o.
+Proof. exact IfaceMinProofs.fix_least. Qed.
+Print Assumptions C19_fix_least.
+
+(** Whole models, every component forest: the result is the pointwise image; the return value is true iff every
+    equivalence of every variable is possible (soundness and completeness); variables without equivalences or with
+    an impossible one are untouched; every other variable keeps a sufficient attribute and otherwise receives
+    the least sufficient type, and ends sufficient. *)
+Theorem C19_fix_exact : forall m,
+  let L := model_locs m in
+  model_occs (fst (fix_model true m)) = map (fix_occ true L) (model_occs m) /\
+  (snd (fix_model true m) = true <-> forall o, In o (model_occs m) -> AllPossible L o) /\
+  forall o, In o (model_occs m) ->
+    (has_eqs (o_v o) = false -> fix_occ true L o = o) /\
+    (~ AllPossible L o -> fix_occ true L o = o) /\
+    (has_eqs (o_v o) = true -> AllPossible L o ->
+       (Sufficient (v_iface (o_v o)) L o -> fix_occ true L o = o) /\
+       (~ Sufficient (v_iface (o_v o)) L o ->
+          v_iface (o_v (fix_occ true L o)) = itype_string (determine true L o) /\ fix_occ true L o <> o) /\
+       Sufficient (v_iface (o_v (fix_occ true L o))) L o /\
+       (forall s, Sufficient s L o -> s = itype_string (determine true L o) \/ s = "public_and_private")).
+Proof. exact IfaceMinProofs.fix_exact. Qed.
+Print Assumptions C19_fix_exact.
+
+Example C19_fix_least_nonvacuous :
+  let L := model_locs m_ok in
+  let oa := mkO 0 1 false (mkV 4 "bogus" [5] None) in
+  let oc := mkO 2 3 false (mkV 6 "public_and_private" [5] None) in
+  In oa (model_occs m_ok) /\ In oc (model_occs m_ok) /\
+  AllPossible L oa /\ ~ Sufficient "bogus" L oa /\ determine true L oa = IPrivate /\
+  v_iface (o_v (fix_occ true L oa)) = "private" /\
+  AllPossible L oc /\ determine true L oc = IPublic /\ Sufficient "public" L oc /\ fix_occ true L oc = oc.
+Proof. exact IfaceMinProofs.fix_least_nonvacuous. Qed.
+Print Assumptions C19_fix_least_nonvacuous.
 
 (* ---- the pinned loop (DESIGN.md section 5, row 28) *)
 
